@@ -4,6 +4,7 @@ import Q1t.Proofs.SimGFWitness
 import Q1t.Proofs.SimGFStabWitness
 import Q1t.Proofs.SimGFExample
 import Q1t.Proofs.SimGFComplex
+import Q1t.Proofs.SimHypsComplex
 /-!
 # C01 — shot histograms are exact Born-rule samples of the circuit
 
@@ -92,14 +93,14 @@ function — the histogram is a `Multinomial(N, p)` draw. -/
 theorem histogram_gf_partial (H : Hyps α P nz n valid) (ord : List (Nat × Nat) → List (Nat × Nat))
     (hord : ∀ l, (ord l).Perm l) (toR : α →+* R) (x : Nat → R) (ops : List (COp P)) (hF : ∀ op ∈ ops, InF n valid op) (hN : 0 < N) :
     expectOrd ord toR (execOps (vecBackend (α := α) (P := P)) (VecState.new n N) (List.replicate N 0) ops)
-      (shotProd x) = gfShot n toR x ops (ket0 n, 0) ^ N :=
+      (shotProd x) = gfShot n toR x ops (SimGF.ket0 n, 0) ^ N :=
   histogram_gf toR hord H x ops hF hN
 
 /-- **Register values of probability zero never occur** (on F): if the single-shot Born coefficient of the
 value `v` is 0, the expectation of the indicator "some shot shows `v`" is 0. -/
 theorem zero_prob_never_partial (H : Hyps α P nz n valid) (ord : List (Nat × Nat) → List (Nat × Nat))
     (hord : ∀ l, (ord l).Perm l) (toR : α →+* R) (ops : List (COp P)) (hF : ∀ op ∈ ops, InF n valid op) (hN : 0 < N) (v : Nat)
-    (hv : gfShot n toR (fun u => if u = v then (1 : R) else 0) ops (ket0 n, 0) = 0) :
+    (hv : gfShot n toR (fun u => if u = v then (1 : R) else 0) ops (SimGF.ket0 n, 0) = 0) :
     expectOrd ord toR (execOps (vecBackend (α := α) (P := P)) (VecState.new n N) (List.replicate N 0) ops)
       (fun sc => if v ∈ sc.2 then (1 : R) else 0) = 0 :=
   zero_prob_never toR hord H ops hF hN v hv
@@ -138,7 +139,7 @@ example : ∀ op ∈ fragCirc, InF 2 (placed 2) op := fragCirc_inF
 program over the exact field `Q8` (independently of `Hyps`) -/
 theorem histogram_gf_example :
     expectOrd id (RingHom.id Q8) (execOps (vecBackend (α := Q8) (P := Empty)) (VecState.new 2 2) [0, 0] fragCirc)
-      (SimGF.shotProd xT) = gfShot 2 (RingHom.id Q8) xT fragCirc (ket0 2, 0) ^ 2 :=
+      (SimGF.shotProd xT) = gfShot 2 (RingHom.id Q8) xT fragCirc (SimGF.ket0 2, 0) ^ 2 :=
   law_on_example
 
 /-- a circuit ending in a `measure_all` with permuted classical bits is in F, and the conclusion of the law
@@ -146,15 +147,15 @@ holds on it (2 shots, kernel computation through the categorical node) -/
 example : ∀ op ∈ allCirc, InF 2 (placed 2) op := allCirc_inF
 theorem histogram_gf_example_measure_all :
     expectOrd id (RingHom.id Q8) (execOps (vecBackend (α := Q8) (P := Empty)) (VecState.new 2 2) [0, 0] allCirc)
-      (SimGF.shotProd xT2) = gfShot 2 (RingHom.id Q8) xT2 allCirc (ket0 2, 0) ^ 2 :=
+      (SimGF.shotProd xT2) = gfShot 2 (RingHom.id Q8) xT2 allCirc (SimGF.ket0 2, 0) ^ 2 :=
   law_on_allCirc
 
 /-- its single-shot distribution has four values of probability ¼ … -/
 example : ∀ v ∈ [0, 3, 4, 7],
-    gfShot 2 (RingHom.id Q8) (fun u => if u = v then 1 else 0) fragCirc (ket0 2, 0) = q8Rat (1/4) := fragCirc_coeffs
+    gfShot 2 (RingHom.id Q8) (fun u => if u = v then 1 else 0) fragCirc (SimGF.ket0 2, 0) = q8Rat (1/4) := fragCirc_coeffs
 /-- … and four of probability 0 (the hypothesis of `zero_prob_never_partial` is satisfiable) -/
 example : ∀ v ∈ [1, 2, 5, 6],
-    gfShot 2 (RingHom.id Q8) (fun u => if u = v then 1 else 0) fragCirc (ket0 2, 0) = 0 := fragCirc_zero
+    gfShot 2 (RingHom.id Q8) (fun u => if u = v then 1 else 0) fragCirc (SimGF.ket0 2, 0) = 0 := fragCirc_zero
 
 /-! ## negative witnesses: the full statement fails on the pinned code -/
 
@@ -189,5 +190,22 @@ theorem stab_peekall_bell_zero_prob_value :
     q8Rat (1/4) ≠ 0 :=
   ⟨bell_normalised, bellPeekAll_born.2.1, bellPeekAll_born.2.2.1, bellPeekAll_stab.1, bellPeekAll_stab.2,
     q8_quarter_ne_zero⟩
+
+
+/-! ## The law with NO hypothesis on amplitudes or gates (complex amplitudes, real parameters)
+
+`Hyps` is inhabited at ℂ/ℝ for every `n` with `valid` = "well-formed gate term on a valid placement"
+(`Q1t.Sim.hyps_complex`, from the C04/C05 theorems: every placed route equals the embedded documented unitary, which
+preserves the norm).  Hence the multinomial law on F holds unconditionally: -/
+
+/-- **histogram_gf_unconditional** — all `n`, all `N ≥ 1`, all circuits of F whose gates are well-formed terms on valid
+placements, every commutative ring `R`, every `x`, every hash-map order oracle: the `N`-shot generating function of the
+model's own run is the `N`-th power of the single-shot Born generating function. -/
+theorem histogram_gf_unconditional {R : Type} [CommRing R] {n N : Nat} (ord : List (Nat × Nat) → List (Nat × Nat))
+    (hord : ∀ l, (ord l).Perm l) (toR : ℂ →+* R) (x : Nat → R) (ops : List (COp ℝ))
+    (hF : ∀ op ∈ ops, InF n (Q1t.Proofs.Route.Placed (P := ℝ) n) op) (hN : 0 < N) :
+    expectOrd ord toR (execOps (vecBackend (α := ℂ) (P := ℝ)) (VecState.new n N) (List.replicate N 0) ops)
+      (shotProd x) = gfShot n toR x ops (SimGF.ket0 n, 0) ^ N :=
+  Q1t.Sim.histogram_gf_unconditional ord hord toR x ops hF hN
 
 end Q1t.Props.C01
